@@ -2,7 +2,9 @@
 (* Case generation for C40 (full enumeration, serialised once):               *)
 (*  TxCases  transaction-level: callback type x contract behaviour x protocol  *)
 (*           x user-limit class x relayer gas class (below / above the         *)
-(*           committed limit) x acknowledgement kind;                          *)
+(*           committed limit; "ample" = above the REQUESTED limit where that   *)
+(*           exceeds the chain maximum, i.e. max < user <= remaining)          *)
+(*           x acknowledgement kind;                                           *)
 (*  FnCases  function-level: every (remaining, user, max) triple over 0..MAXG  *)
 (*           as abstract ranks; the harness instantiates each rank with the    *)
 (*           values of several increasing scales (incl. 64-bit boundaries)     *)
@@ -16,13 +18,16 @@ VARIABLE x
 Protos == {"v1", "v2"}
 \* user-limit classes: none (three encodings), below max, equal to max, above max
 UserClasses == IF FULL THEN {"absent", "empty", "zero", "lo", "eq", "eqp1", "hi"} ELSE {"absent", "zero", "lo", "eq", "hi"}
-RemClasses == {"below", "above"}
+RemClasses == {"below", "above", "ample"}
+\* "ample" differs from "above" only when the requested limit exceeds the maximum
+AboveMax == {"eqp1", "hi"}
 
 TxCases ==
     { [type |-> t, beh |-> b, proto |-> p, user |-> u, remcls |-> rc, ackKind |-> k] :
         t \in Types, b \in Behs, p \in Protos, u \in UserClasses, rc \in RemClasses, k \in {"succ", "err"} }
 TxWanted == { c \in TxCases :
                 /\ (c.type # "ack" => c.ackKind = "succ")
+                /\ (c.remcls = "ample" => c.user \in AboveMax)
                 /\ (c.type = "writeAck" => c.proto = "v1")              \* asynchronous acknowledgement: v1 stack only (see docs)
                 /\ (~FULL => (c.proto = "v2" => c.user \in {"absent", "lo", "hi"})) }
 
